@@ -109,6 +109,7 @@ Next1(t, i) ==
        \* a directive only if the WHOLE word after "#" is one ("X#else_y" is a paste and an identifier, as for llvm-tblgen)
        (LET e == Run(t, i + 1, IdCont) w == Word(t, i + 1, e) IN IF w \in Directive THEN Tok("pp:" \o w, i, e) ELSE Tok("p:#", i, i + 1))
   ELSE IF c = "." /\ d = "." /\ At(t, i + 2) = "." THEN Tok("p:...", i, i + 3)
+  ELSE IF c = "." /\ d = "." THEN Tok("err", i, i + 2)                       \* ".." is not a token (llvm: "Invalid '..' punctuation")
   ELSE IF c \in Punct THEN Tok("p:" \o c, i, i + 1)
   ELSE Tok("err", i, i + 1)
 
